@@ -9,7 +9,7 @@ import (
 )
 
 func init() {
-	register("C21", []string{"./src/fs/..."}, checkC21)
+	register("C21", []string{"./src/fs/...", "./src/parse/asp/..."}, checkC21)
 }
 
 // regexp metacharacters (RE2 syntax) and the glob operators that must keep their meaning
@@ -308,6 +308,43 @@ func checkC21(p *Prog, r *Report) {
 		}
 		r.check(bad == 0, rl, "no store into, or append onto a shortened view of, the cached file list", p.pos(site), "fs.Globber.glob", itoa(n)+" append/store site(s) on slices taken from the walk cache, none inside the cached length", "glob() filters in place on the slice held in the walk cache (`cached[:0]` + append, or an indexed store): every pattern overwrites the first entries of the cached listing with its own results, so later patterns and later glob() calls of the same BUILD file lose files or return duplicates")
 	}
+	p.globStateIsPerGlobber(r, "E7.walk-cache-is-per-globber")
+	// the BUILD-language glob() looks at the file system through fs.Globber only: the package walk is what keeps
+	// sub-packages, plz-out and symlinked directories out
+	if gb := p.Fn("parse/asp", "glob"); gb == nil {
+		r.unresolved("E7.glob-only-through-the-globber", "asp.glob")
+	} else {
+		direct := ""
+		for _, g := range p.closure([]*ssa.Function{gb}, 2, inRepoPkgs("parse/asp")) {
+			for _, gg := range withAnon(g) {
+				eachInstr(gg, false, func(_ *ssa.Function, i ssa.Instruction) {
+					if c, ok := i.(*ssa.Call); ok {
+						switch n := calleeName(&c.Call); n {
+						case "io/fs.ReadDir", "os.ReadDir", "os.Lstat", "os.Stat", "io/fs.Stat", "os.Open", "io/fs.WalkDir", "path/filepath.Walk", "path/filepath.WalkDir", "path/filepath.Glob", "io/fs.Glob":
+							direct = n + " in " + gg.Name()
+						}
+					}
+				})
+			}
+		}
+		r.check(direct == "", "E7.glob-only-through-the-globber", "glob() does not read directories itself", p.pos(gb.Pos()), fnName(gb), "no direct directory / stat call in the builtin or its helpers", "the glob() builtin reads the file system directly ("+direct+") on some path (e.g. a fast path for patterns without wildcards) and so bypasses the package walk: glob([\"sub/c.txt\"]) returns a file that belongs to the nested package sub/, and files under plz-out or behind a symlinked directory leak in")
+	}
+	// a file system handed to the globber answers Stat for the link's target (io/fs.StatFS), so that a package directory
+	// which is a symlink is still walked
+	{
+		lst := ""
+		for _, fn := range p.Funcs("fs") {
+			if fn.Name() != "Stat" || fn.Signature.Recv() == nil {
+				continue
+			}
+			eachInstr(fn, false, func(_ *ssa.Function, i ssa.Instruction) {
+				if c, ok := i.(*ssa.Call); ok && isCallTo(c, "os.Lstat") {
+					lst = fnName(fn)
+				}
+			})
+		}
+		r.check(lst == "", "E9.statfs-follows-links", "no fs.FS implementation in package fs answers Stat with Lstat", "-", "fs", "Stat methods (if any) follow symlinks, as io/fs.StatFS requires", lst+" answers Stat with os.Lstat: io/fs.WalkDir asks the file system to stat its root, gets the link's own info for a package directory that is a symlink, does not treat it as a directory, and every glob in that package returns nothing")
+	}
 	// (6)
 	rule = "E7.cache-key-covers-walk-inputs"
 	{
@@ -411,4 +448,41 @@ func (p *Prog) runPrefixRuleFns(r *Report, rule string, fns []*ssa.Function, flo
 	if n < floor {
 		r.unresolved(rule, "prefix tests in "+fnName(fns[0]))
 	}
+}
+
+// globStateIsPerGlobber: directory listings are remembered in the Globber that made them and nowhere that outlives a
+// parse: one process may parse the repository twice (`plz query changes --since` builds a before- and an after-graph), and
+// a listing kept at package level would give the second parse the first one's files.
+func (p *Prog) globStateIsPerGlobber(r *Report, rule string) {
+	n, bad := 0, ""
+	for _, fn := range p.Funcs("fs") {
+		if p.fileOf(fn) != "glob.go" {
+			continue
+		}
+		n++
+		eachInstr(fn, false, func(_ *ssa.Function, i ssa.Instruction) {
+			switch x := i.(type) {
+			case *ssa.MapUpdate:
+				if g, ok := rootOf(x.Map).(*ssa.Global); ok {
+					bad = g.Name()
+				}
+			case *ssa.Store:
+				if g, ok := x.Addr.(*ssa.Global); ok {
+					bad = g.Name()
+				}
+			case *ssa.Call:
+				n := calleeName(&x.Call)
+				if (n == "(*sync.Map).Store" || n == "(*sync.Map).LoadOrStore") && len(x.Call.Args) > 0 {
+					if g, ok := x.Call.Args[0].(*ssa.Global); ok {
+						bad = g.Name()
+					}
+				}
+			}
+		})
+	}
+	if n == 0 {
+		r.unresolved(rule, "functions of fs/glob.go")
+		return
+	}
+	r.check(bad == "", rule, "glob keeps no state at package level", "-", "fs/glob.go", itoa(n)+" functions, none writes a package-level variable", "fs/glob.go writes package-level state ("+bad+", e.g. a process-wide cache of directory walks): a second parse in the same process (the after-graph of `plz query changes --since`, a watch cycle) sees the first parse's listing, so files added to or removed from a globbed directory are invisible and the targets that glob them drop out of the changed set")
 }
